@@ -105,7 +105,7 @@ func runC14(c *core.Ctx) {
 	hn := 0
 	for _, t := range dyn.ElemTypes() {
 		for ch := 1; ch <= 4; ch++ {
-			for _, shape := range [][2]int{{0, 3}, {2, 4}, {3, 3}, {1, 6}} {
+			for _, shape := range [][2]int{{0, 3}, {2, 4}, {3, 3}, {1, 6}, {0, 0}} {
 				hn++
 				if !c.Mine(hn) {
 					continue
